@@ -477,6 +477,13 @@ pub mod harness {
         vrt::ev(site, &val);
         vrt::st_r(slot, payload, val)
     }
+    /// a step written `~-> gvia::<B, K, _>`: takes the previous step's FUTURE, awaits it, then pends at the gate of (B, K)
+    pub async fn gvia<const B: usize, const K: usize, F: Future<Output = i32>>(f: F) -> i32 {
+        let v = f.await + 1;
+        gate(B * 4 + K).await;
+        vrt::ev(&format!("{}.{}.f", B, K), &v);
+        vrt::st(B * 4 + K, v)
+    }
     /// two pending points in one branch-step
     pub async fn gated2(g: usize, g2: usize, site: &'static str, slot: usize, val: i32) -> i32 {
         gate(g).await;
